@@ -39,7 +39,7 @@ MUST_SEE = [
     "rejected_ASTNodeReplaceError", "rejected_ASTNodeReplaceWithError", "rejected_ASTTransformError", "failing_element_not_first", "frames_compared", "nested_failing_element",
 ]
 CONFIG = {
-    "quick": {"shards": 16, "histories": 20, "ops": 18, "rejects": 30, "watchdog_s": 600},
+    "quick": {"shards": 16, "histories": 120, "ops": 18, "rejects": 30, "watchdog_s": 600},
     "thorough": {"shards": 32, "histories": 300, "ops": 30, "rejects": 60, "watchdog_s": 3400},
 }
 
@@ -394,7 +394,8 @@ def run_shard(ctx):
             ctx.count("frames_compared")
             if where != "first":
                 ctx.count("failing_element_not_first")
-            ctx.fp((opname, ename, where, "det" if (recv is not None and recv.detached) else "att" if recv is not None else "-"))
+            ctx.fp((opname, ename, where, type(recv).__name__ if recv is not None else "-", "det" if (recv is not None and recv.detached) else "att" if recv is not None else "-",
+                    tuple(type(a).__name__ for a in args if hasattr(a, "detached"))[:4], len(F.handles) // 5))
             if done <= 2 and case == 0 and ctx.shard == 0:
                 ctx.sample({"operation": opname, "error": ename, "failing_element": where, "receiver": desc(recv), "args": [desc(a) for a in args if hasattr(a, "detached")]})
             diff = F.frame_diff(before)
